@@ -639,15 +639,21 @@ func (lc *lcCall) rows(mode int, pass int, body []ast.Stmt) ([]lcRow, error) {
 			}
 			cond := c.text(x.Cond)
 			var marker string
+			folds := false
 			for name, v := range c.strs {
 				if cond == name+" == asym" || cond == "asym == "+name || cond == "ad.Name == "+name || cond == name+" == ad.Name" {
 					marker = v
+				}
+				// the case-insensitive forms of the same comparison
+				if cond == "strings.EqualFold(ad.Name, "+name+")" || cond == "strings.EqualFold("+name+", ad.Name)" ||
+					cond == "strings.ToLower(ad.Name) == "+name || cond == name+" == strings.ToLower(ad.Name)" {
+					marker, folds = v, true
 				}
 			}
 			if marker == "" {
 				break
 			}
-			lc.foldModes = append(lc.foldModes, fmt.Sprintf("(%d, %d, false)", pass, mode))
+			lc.foldModes = append(lc.foldModes, fmt.Sprintf("(%d, %d, %v)", pass, mode, folds))
 			act, err := lc.act(x.Body.List)
 			if err != nil {
 				return nil, err
